@@ -4,7 +4,7 @@
    The model (Pbf/Model.v) is a hand transcription of /repo/osmpbf/decode_data.go at
    message-tree level, tied to the implementation by correspondence (harness/cmd/c08). *)
 From Coq Require Import ZArith List Bool.
-From Verif Require Import Base.Int64 Pbf.Tree Pbf.Model Pbf.Spec Pbf.ProofsIndep Pbf.ProofsFilter Pbf.ProofsDecode Pbf.ProofsDense Pbf.ProofsAll.
+From Verif Require Import Base.Int64 Pbf.Tree Pbf.Model Pbf.Spec Pbf.ProofsIndep Pbf.ProofsFilter Pbf.ProofsDecode Pbf.ProofsDense Pbf.ProofsAll Pbf.Arena Pbf.ProofsArena.
 Import ListNotations.
 Open Scope Z_scope.
 
@@ -51,8 +51,45 @@ Example C08_witness :
   /\ scan_result c dstate0 m = Ok [ORel (mkRel 9 info0 [] [mkMem 1 5 []])].
 Proof. vm_compute. split; reflexivity. Qed.
 
-(* returned_objects_stable (objects already appended to the block's result are never written
-   again, in an explicit arena semantics of the dense-node tag slices) is NOT proved in Coq in
-   this version; the clause is checked on the implementation by the harness (deep snapshots at
-   return time re-compared at end of scan) and by the model/implementation correspondence.
-   In the pure model the clause is vacuous: values are immutable. *)
+(* 5. returned_objects_stable, in the explicit heap semantics of the dense-node tag slices
+      (Pbf/Arena.v: backing arrays = slots, n.Tags = (slot, len, cap), make / in-place append /
+      reallocating append / [:0] as the Go code performs them, the accepted node handed over and the
+      rejected node's array reused): from any heap state satisfying the invariant (working slot not
+      referenced by any object already in dec.q), after ANY number of further iterations with ANY
+      accept/reject pattern, dec.q has only grown and the value of every object that was already in
+      dec.q is unchanged; the invariant holds again (so the statement applies from every later
+      moment too: an object is stable from the moment it is appended). *)
+Theorem C08_returned_objects_stable : forall c p ids a a',
+  Inv a -> extract_loop_a c p ids a = Ok a' ->
+  (exists news, a_q a' = a_q a ++ news) /\ view (a_ar a') (a_q a) = view (a_ar a) (a_q a) /\ Inv a'.
+Proof. exact returned_objects_stable. Qed.
+Print Assumptions C08_returned_objects_stable.
+
+(* the heap run refines the pure model of Pbf/Model.v: same loop result, and dec.q read through
+   the heap is the pure dec.q *)
+Theorem C08_arena_refines_model : forall c p ids a a',
+  Inv a -> extract_loop_a c p ids a = Ok a' -> x_q (a_x a) = view (a_ar a) (a_q a) ->
+  extract_loop c p ids (a_x a) = Ok (a_x a') /\ x_q (a_x a') = view (a_ar a') (a_q a').
+Proof. exact arena_refines_model. Qed.
+Print Assumptions C08_arena_refines_model.
+
+(* the invariant holds at the start of every extractDenseNodes call *)
+Theorem C08_arena_invariant_initially : forall dc q ar qa, Forall (objok ar None) qa ->
+  Inv (mkA (mkX dc 0 0 0 0 0 0 0 node0 q) ar None qa).
+Proof. exact Inv_init. Qed.
+Print Assumptions C08_arena_invariant_initially.
+
+(* non-vacuity: node 1 (two tags) is rejected, node 2 (one tag) re-uses its backing array in place and
+   is accepted, node 3 (no tag) is accepted: one backing array in the heap, the returned node reads
+   its own tag from it *)
+Example C08_witness_arena :
+  let p := mkP [[]; [107]; [118]] None None None None in
+  let dc := mkDC (Some [2; 2; 2]) ic0 (Some [0; 0; 0]) (Some [0; 0; 0]) (Some [1; 2; 1; 2; 0; 2; 1; 0; 0]) in
+  let c := mkCfg false false false (fun n => negb (n_id n =? 1)) (fun _ => true) (fun _ => true) in
+  match extract_loop_a c p [2; 2; 2] (mkA (mkX dc 0 0 0 0 0 0 0 node0 []) [] None []) with
+  | Ok a' => length (a_ar a') = 1%nat
+             /\ map (fun o => match o with ONode n => (n_id n, n_tags n) | _ => (0, []) end) (view (a_ar a') (a_q a'))
+                = [(2, [([118], [107])]); (3, [])]
+  | _ => False
+  end.
+Proof. vm_compute. split; reflexivity. Qed.
